@@ -501,16 +501,21 @@ impl Prop for C12 {
         let sites: Vec<&Site> = SITES.iter().filter(|s| s.probe == my_probe).collect();
         let site = sites[t.below(sites.len())];
         let code_site = matches!(site.option, "minus-style" | "plus-style" | "zero-style" | "minus-emph-style" | "plus-emph-style" | "minus-non-emph-style" | "plus-non-emph-style");
-        let style = gen_style(t, !(matches!(site.option, "commit-style" | "file-style") || site.option.starts_with("hunk-header")), code_site);
+        let mut style = gen_style(t, !(matches!(site.option, "commit-style" | "file-style") || site.option.starts_with("hunk-header")), code_site);
         let truecolor = t.coin();
         ctx.class(site.option);
         // (drawn from a fork: the site and style of a case do not depend on it)
-        let mut vt = t.fork(8);
+        let mut vt = t.fork(12);
         let mut v = Variant::default();
         if my_probe == Probe::Diff && vt.chance(1, 2) {
             v.via_gitconfig = vt.chance(2, 3);
             v.sbs = matches!(site.option, "minus-style" | "minus-emph-style" | "minus-non-emph-style" | "plus-style" | "zero-style") && site.extra.is_empty() && vt.coin();
             v.theme = v.sbs || vt.coin();
+            // (`normal <background>` is the form of delta's own defaults for the removed-line styles,
+            // the one it rewrites to `syntax ...` for its side-by-side default: a user's value is not a default)
+            if v.sbs && vt.coin() {
+                style = format!("normal {}", vt.ps(&["52", "\"#400000\"", "17", "#003300", "bold 88"]));
+            }
             ctx.class_if(v.via_gitconfig, "style-from-git-config");
             ctx.class_if(v.sbs, "site-in-side-by-side");
             ctx.class_if(v.theme, "syntax-theme-on");
